@@ -330,9 +330,9 @@ def make_route(nlri):
     return Route(nlri, AttributeCollection())
 
 
-def check_l4_pair(ctx: Ctx, a, b, what: str, wit: dict) -> None:
+def check_l4_pair(ctx: Ctx, a, b, what: str, wit: dict, label: str | None = None) -> None:
     """a and b differ in exactly `what` (family / path-id / prefix-address / prefix-mask / rd): indexes must differ"""
-    label = laws.nlri_label(a)
+    label = label or laws.nlri_label(a)
     wit = dict(wit, differs=what, a=laws.safe_repr(a), b=laws.safe_repr(b), a_bytes=hx(getattr(a, '_packed', b'')), b_bytes=hx(getattr(b, '_packed', b'')))
     try:
         ia, ib = bytes(a.index()), bytes(b.index())
@@ -357,7 +357,7 @@ V4 = [
     ('10.1.2.254', 31), ('10.1.2.3', 32), ('255.255.255.255', 32), ('0.0.0.0', 32), ('10.1.2.3', 24), ('192.0.2.0', 23),
 ]
 V6 = [
-    ('::', 0), ('8000::', 1), ('2001:db8::', 32), ('2001:db8:8000::', 33), ('2001:db8:0:1::', 64), ('2001:db8::2', 127),
+    ('::', 0), ('8000::', 1), ('2001:db8::', 32), ('2001:db8:1::', 48), ('2001:db8:1:8000::', 49), ('2001:db8:8000::', 33), ('2001:db8:0:1::', 64), ('2001:db8::2', 127),
     ('2001:db8::1', 128), ('ffff:ffff:ffff:ffff:ffff:ffff:ffff:ffff', 128), ('::', 128), ('2001:db8::1', 64), ('2001:db8:1:2:3::', 104),
 ]
 PIDS = [None, 0, 1, 0xFFFFFFFF, 0x6E6F2D70]
@@ -573,6 +573,7 @@ def run_ip_family(ctx: Ctx, afi: int, safi: int) -> None:
             line = ip_text_line(d)
             if line:
                 lines.append((k, line))
+        ctx.r.shuffle(lines)  # the grid is ordered by prefix: sample it rather than take its head
         lines = lines[: 400 * ctx.scale]
         for k, line, route in parse_routes(ctx, lines, [(afi, safi)]):
             t = route.nlri
@@ -1111,7 +1112,7 @@ def exercise_attr(ctx: Ctx, a, src: str, text: str | None = None) -> None:
 
 def attr_factory_objects(ctx: Ctx) -> list:
     from exabgp.bgp.message.open.asn import ASN
-    from exabgp.bgp.message.update.attribute.aggregator import Aggregator
+    from exabgp.bgp.message.update.attribute.aggregator import Aggregator, Aggregator4
     from exabgp.bgp.message.update.attribute.aigp import AIGP
     from exabgp.bgp.message.update.attribute.aspath import AS4Path, ASPath, CONFED_SEQUENCE, CONFED_SET, SEQUENCE, SET
     from exabgp.bgp.message.update.attribute.atomicaggregate import AtomicAggregate
@@ -1153,6 +1154,7 @@ def attr_factory_objects(ctx: Ctx) -> list:
     for asn in (0, 1, 65000, 65535, 23456, 65536, 70000, 4294967295):
         for ip in ('0.0.0.0', '1.2.3.4', '255.255.255.255'):
             add('Aggregator.make_aggregator', lambda asn=asn, ip=ip: Aggregator.make_aggregator(ASN(asn), IPv4.from_string(ip)))
+            add('Aggregator4.make_aggregator', lambda asn=asn, ip=ip: Aggregator4.make_aggregator(ASN(asn), IPv4.from_string(ip)))
     for n in (1, 2, 63, 64, 65, 100):
         add('ClusterList.make_clusterlist', lambda n=n: ClusterList.make_clusterlist([ClusterID.from_string('10.0.%d.%d' % (i // 250, i % 250 + 1)) for i in range(n)]))
     # AS_PATH shapes, 2-byte only and with 4-byte ASNs, packed either way
@@ -1402,6 +1404,12 @@ def mutate(r: random.Random, b: bytes) -> bytes:
 
 def exercise_decoded_nlri(ctx: Ctx, afi, safi, used: bytes, y, addpath: bool, neg, src: str) -> None:
     label = laws.nlri_label(y)
+    want = 'nlri:%s/%s' % (afi, safi)
+    if label != want:
+        # the registry decoder of one family returned an object which says it belongs to another: whatever it
+        # encodes to is then decoded by the other family's decoder, so the round trip is already lost
+        ctx.bad(f'C15/roundtrip-nlri:{afi}/{safi}:family-lost', f'an NLRI decoded as {afi}/{safi} reports the family {y.afi}/{y.safi}: {laws.safe_repr(y)[:80]}', {'class': want, 'source': src, 'bytes': hx(used), 'addpath': addpath, 'decoded_family': f'{y.afi}/{y.safi}', 'reencoded': hx(y.pack_nlri(neg))}, want, 'L1')
+        return
     try:
         b1 = bytes(y.pack_nlri(neg))
     except Exception as e:  # noqa
@@ -1420,6 +1428,23 @@ def exercise_decoded_nlri(ctx: Ctx, afi, safi, used: bytes, y, addpath: bool, ne
 
 def run_corpus_nlri(ctx: Ctx, part: int, parts: int) -> None:
     nl, _ = corpus_slices()
+    # BGP-LS VPN is the BGP-LS NLRI with a route distinguisher after the header: derived from the bgp-ls slices
+    extra = []
+    for src, afi, safi, data, wd in nl:
+        if (afi, safi) == (16388, 71) and len(data) >= 4:
+            code, ln = struct.unpack('!HH', data[:4])
+            if ln + 4 == len(data):
+                for rd in (RDS[1], RDS[3]):
+                    extra.append((src + '+rd', 16388, 72, data[:2] + struct.pack('!H', ln + 8) + rd + data[4:], wd))
+    nl = nl + extra
+    if part == 0:
+        from exabgp.protocol.family import AFI, SAFI
+
+        for i in range(0, len(extra) - 1, 2):
+            ga = decode_field(AFI.from_int(16388), SAFI.from_int(72), extra[i][3], False, ctx.sessions['plain'], False)
+            gb = decode_field(AFI.from_int(16388), SAFI.from_int(72), extra[i + 1][3], False, ctx.sessions['plain'], False)
+            if ga and gb and len(ga) == 1 and len(gb) == 1:
+                check_l4_pair(ctx, ga[0][1], gb[0][1], 'rd', {'class': 'nlri:bgp-ls/bgp-ls-vpn', 'a_wire': hx(extra[i][3]), 'b_wire': hx(extra[i + 1][3])}, 'nlri:bgp-ls/bgp-ls-vpn')
     for idx, (src, afi, safi, data, wd) in enumerate(nl):
         if idx % parts != part:
             continue
@@ -1482,7 +1507,7 @@ def same_plain_object(a, b) -> tuple[bool, str]:
             vb = vb() if callable(vb) else vb
         except Exception:  # noqa
             continue
-        if va != vb:
+        if repr(va) != repr(vb):  # repr: a NaN is not equal to itself
             return False, f'{name} {str(va)[:80]} != {str(vb)[:80]}'
     return True, ''
 
@@ -1587,6 +1612,8 @@ def run_corpus_attrs(ctx: Ctx, part: int, parts: int) -> None:
                 if code == 40:
                     for sr in getattr(a, 'sr_attrs', []):
                         exercise_sub_tlv(ctx, 'srid', sr, vsrc)
+                if code == 23:
+                    exercise_tunnel(ctx, a, vsrc)
             if not done:
                 ctx.res.count('corpus-attr-not-decodable' if vsrc.startswith('corpus') else 'mutant-not-decodable')
 
@@ -1606,6 +1633,48 @@ def exercise_sub_tlv(ctx: Ctx, kind: str, x, src: str) -> None:
             ctx.render[case_id(label, 'tlv', b)] = render_digest(rs)
         except Exception:  # noqa
             ctx.res.count('sub-tlv-pack-raises:' + label)
+
+
+def exercise_tunnel(ctx: Ctx, a, src: str) -> None:
+    """tunnel type TLVs and their sub-TLVs inside a decoded/parsed TunnelEncap: pack -> unpack -> pack and renderings"""
+    from exabgp.bgp.message.update.attribute.tunnel_encap.tlv import SubTLV, TunnelTypeTLV
+
+    for t in getattr(a, 'tunnel_tlvs', []):
+        ttype = getattr(t, 'TUNNEL_TYPE', -1) if type(t).__name__ != 'GenericTunnelTLV' else getattr(t, '_tunnel_type', -1)
+        label = 'tunnel:%s' % ttype if ttype in ctx.reg['tunnel'] else 'tunnel:generic'
+        try:
+            b = bytes(t.pack())
+            t2 = TunnelTypeTLV.unpack_tunnel(ttype, b[4:])
+            b2 = bytes(t2.pack())
+        except Exception as e:  # noqa
+            ctx.bad(f'C15/raises:{label}:{type(e).__name__}', f'tunnel TLV pack/unpack raises {type(e).__name__}: {str(e)[:120]}', {'class': label, 'source': src}, label, 'L1')
+            continue
+        wit = {'class': label, 'source': src, 'bytes': hx(b)}
+        if b2 != b:
+            ctx.bad('C15/reencode-differs:' + label, f'encode(decode(b)) != b: {hx(b)[:100]} -> {hx(b2)[:100]}', dict(wit, reencoded=hx(b2)), label, 'L2')
+        else:
+            ctx.ok(label, 'L2', (label, 'L2', hx(b)))
+        if (label, b) not in ctx.seen:
+            ctx.seen.add((label, b))
+            check_l5(ctx, label, lambda: TunnelTypeTLV.unpack_tunnel(ttype, b[4:]), wit, case_id(label, 'tlv', b))
+        for st in getattr(t, 'subtlvs', []):
+            stype = getattr(st, 'SUBTYPE', -1) if type(st).__name__ != 'GenericSubTLV' else getattr(st, '_subtype', -1)
+            sl = 'tunnel-sub:%s' % stype if stype in ctx.reg['tunnel-sub'] else 'tunnel-sub:generic'
+            try:
+                sb = bytes(st.pack())
+                back = SubTLV.unpack_subtlvs(sb)
+                sb2 = b''.join(bytes(x.pack()) for x in back)
+            except Exception as e:  # noqa
+                ctx.bad(f'C15/raises:{sl}:{type(e).__name__}', f'sub-TLV pack/unpack raises {type(e).__name__}: {str(e)[:120]}', {'class': sl, 'source': src}, sl, 'L1')
+                continue
+            w2 = {'class': sl, 'source': src, 'bytes': hx(sb)}
+            if sb2 != sb:
+                ctx.bad('C15/reencode-differs:' + sl, f'encode(decode(b)) != b: {hx(sb)[:100]} -> {hx(sb2)[:100]}', dict(w2, reencoded=hx(sb2)), sl, 'L2')
+            else:
+                ctx.ok(sl, 'L2', (sl, 'L2', hx(sb)))
+            if (sl, sb) not in ctx.seen:
+                ctx.seen.add((sl, sb))
+                check_l5(ctx, sl, lambda: SubTLV.unpack_subtlvs(sb)[0], w2, case_id(sl, 'tlv', sb))
 
 
 def exercise_extcomm(ctx: Ctx, data: bytes, src: str) -> None:
@@ -1892,8 +1961,7 @@ def run_configs(ctx: Ctx, part: int, parts: int) -> None:
                             for sr in getattr(a, 'sr_attrs', []):
                                 exercise_sub_tlv(ctx, 'srid', sr, src)
                         if int(code) == 23:
-                            for t in getattr(a, 'tunnels', getattr(a, 'tlvs', [])) or []:
-                                exercise_sub_tlv(ctx, 'tunnel', t, src)
+                            exercise_tunnel(ctx, a, src)
                     exercise_update(ctx, route, src)
                     exercise_update(ctx, route, src, withdraw=True)
     finally:
